@@ -1627,6 +1627,15 @@ def gen_c15(tier, rng):
     lines += mm[:: max(1, len(mm) // (60 if quick else 300))]
     mr = [c for c in gen_c04("quick", rng)]
     lines += mr[:: max(1, len(mr) // (40 if quick else 200))]
+    # one-shot searches on short haystacks with needles of equal length but different bytes, in a period-3 rotation: a
+    # thread that runs every n-th case (n a power of two) sees a different needle each time AT THE SAME ADDRESS of its
+    # needle buffer, so state cached across calls and keyed by address or length goes stale  (seeded change C15-e)
+    trio = [b"needle-A", b"needle-B", b"Needle-C"]
+    for j in range(60 if quick else 300):
+        nd = trio[j % 3]
+        hb = [b"..." + nd + b"...", nd, b"." * 20 + nd, b"xx" + nd[:-1] + b"?" + nd + b"!", b"." * 40][(j // 3) % 5]
+        lines.append(f"mm f=top x={hexs(nd)} h={hexs(hb)}")
+        lines.append(f"mm f=rtop x={hexs(nd)} h={hexs(hb)}")
     junk = (x[:2] + b"q") * 70
     hs = [junk + x, x + b"--" + x, b"q" * 200, junk, b"", x * 3, b"q" * 70 + x + b"q" * 70 + x]
     for j in range(40 if quick else 200):
